@@ -1283,3 +1283,80 @@ Section EndToEnd.
     - intros k. rewrite <- (mcalled_perm true k _ _ P), <- (mcalled_perm false k _ _ P). apply B4.
   Qed.
 End EndToEnd.
+
+(* ================================================================== the stratum protocol on CRelIndex *)
+(* One iteration of a parallel stratum as generated code drives an index: a parallel phase inserting into new
+   (any interleaving), then merge_delta_to_total_new_to_delta.  Iterated any number of times, the three
+   concrete values stay related to the three abstract multimaps. *)
+Section Rounds.
+  Variable sh : forall A : Type, list A -> list A.
+  Hypothesis sh_perm : forall A (l : list A), Permutation (sh A l) l.
+  Variable hash : Z -> nat.
+  Variable n : nat.
+  Hypothesis n_pos : n <> O.
+
+  Definition cri_ok (c : cri) (a : mmap) : Prop :=
+    fst c = false /\ length (snd c) = n /\ cri_wf hash c /\ Permutation (cri_abs c) a.
+  Definition cri_ok3 (c : cri * cri * cri) (a : mmap * mmap * mmap) : Prop :=
+    let '(c0, c1, c2) := c in let '(a0, a1, a2) := a in cri_ok c0 a0 /\ cri_ok c1 a1 /\ cri_ok c2 a2.
+
+  Definition cri_round (schedule : list (Z * Z)) (c : cri * cri * cri) : res (cri * cri * cri) :=
+    let '(c0, c1, c2) := c in
+    bind (steps (cri_step hash) schedule c0) (fun c0' => merge3r (cri_move sh) c0' c1 c2).
+  Definition mm_round (inserts : list (Z * Z)) (a : mmap * mmap * mmap) : mmap * mmap * mmap :=
+    let '(a0, a1, a2) := a in (mm_empty, mm_union (mm_of_inserts inserts) a0, mm_union a2 a1).
+
+  Lemma len_has_shards (c : cri) : length (snd c) = n -> has_shards hvec c.
+  Proof. intros L E. rewrite E in L. cbn in L. congruence. Qed.
+
+  Theorem cri_round_spec (threads : list (list (Z * Z))) schedule c a :
+    interleave threads schedule -> cri_ok3 c a ->
+    exists c', cri_round schedule c = Ok c' /\ cri_ok3 c' (mm_round (concat threads) a).
+  Proof.
+    destruct c as [[c0 c1] c2], a as [[a0 a1] a2]. intros I [[F0 [L0 [W0 P0]]] [[F1 [L1 [W1 P1]]] [F2 [L2 [W2 P2]]]]].
+    destruct (cri_steps_spec hash schedule c0 F0 (len_has_shards c0 L0)) as [c0' [E0 [F0' [L0' [P0' W0']]]]].
+    destruct (cri_merge_spec sh sh_perm hash c0' c1 c2 F1 F2 (eq_trans L1 (eq_sym L2))) as [n' [t' [E [A [Fn [Ft [Pt Wt]]]]]]].
+    destruct (Wt W1 W2) as [Wn' Wt'].
+    exists (n', c0', t'). unfold cri_round. rewrite E0. cbn [bind]. split; [exact E|].
+    (* lengths of the merge results *)
+    assert (LL : length (snd n') = n /\ length (snd t') = n).
+    { unfold merge3r in E. destruct (cri_move_spec sh sh_perm hash c1 c2 F1 F2 (eq_trans L1 (eq_sym L2))) as [f'' [t'' [E' [_ [_ [_ [Lf [Lt _]]]]]]]].
+      rewrite E' in E. cbn [bind fst snd] in E. inversion E; subst. split; congruence. }
+    destruct LL as [Ln Lt]. cbn [cri_ok3 mm_round]. split; [|split].
+    - split; [exact Fn|]. split; [exact Ln|]. split; [exact Wn'|]. rewrite A. reflexivity.
+    - split; [exact F0'|]. split; [congruence|]. split; [now apply W0'|]. rewrite P0'. unfold mm_union, mm_of_inserts.
+      apply Permutation_app; [now apply interleave_perm|exact P0].
+    - split; [exact Ft|]. split; [exact Lt|]. split; [exact Wt'|]. rewrite Pt. unfold mm_union. now apply Permutation_app.
+  Qed.
+
+  (* any number of iterations, each with its own threads and its own interleaving *)
+  Fixpoint cri_rounds (scheds : list (list (Z * Z))) (c : cri * cri * cri) : res (cri * cri * cri) :=
+    match scheds with
+    | [] => Ok c
+    | s :: r => bind (cri_round s c) (cri_rounds r)
+    end.
+  Fixpoint mm_rounds (ins : list (list (Z * Z))) (a : mmap * mmap * mmap) : mmap * mmap * mmap :=
+    match ins with
+    | [] => a
+    | i :: r => mm_rounds r (mm_round i a)
+    end.
+
+  Theorem cri_rounds_spec (rounds : list (list (list (Z * Z)) * list (Z * Z))) : forall c a,
+    Forall (fun ts => interleave (fst ts) (snd ts)) rounds -> cri_ok3 c a ->
+    exists c', cri_rounds (map snd rounds) c = Ok c' /\ cri_ok3 c' (mm_rounds (map (fun ts => concat (fst ts)) rounds) a).
+  Proof.
+    induction rounds as [|[ts s] rounds IH]; intros c a F R.
+    - exists c. split; [reflexivity|exact R].
+    - inversion F as [|? ? I F']; subst. cbn [fst snd] in I. destruct (cri_round_spec ts s c a I R) as [c1 [E1 R1]].
+      destruct (IH c1 _ F' R1) as [c' [E R']]. exists c'. cbn [map snd fst cri_rounds mm_rounds]. rewrite E1. cbn [bind]. auto.
+  Qed.
+
+  Lemma cri_ok3_initial :
+    cri_ok3 (dm_default ([] : hvec) n, dm_default ([] : hvec) n, dm_default ([] : hvec) n) (mm_empty, mm_empty, mm_empty).
+  Proof.
+    destruct (cri_default_wf hash n) as [W [A F]].
+    assert (K : cri_ok (dm_default ([] : hvec) n) mm_empty).
+    { split; [exact F|]. split; [apply repeat_length|]. split; [exact W|]. rewrite A. reflexivity. }
+    exact (conj K (conj K K)).
+  Qed.
+End Rounds.
